@@ -2332,4 +2332,133 @@ Section Walk.
       cbn in Hin. apply (put_server_in _ _ _ (sn_nd _ _ _ (si_n _ _ _ HS j nd Hn))) in Hin as [->|[_ Hne]]; [reflexivity|]. exfalso. apply Hne. cbn. congruence.
     - exfalso. rewrite (nodeZ_same s s' j Hm) in Hn'. assert (nd' = nd) by congruence. subst nd'. exact (find_server_some _ _ _ Hin Hid Efs).
   Qed.
+
+  (* the record of customer i keeps its views through steps that neither view sees *)
+  Lemma rec_VJS s s' i y : VJ s' = VJ s -> VS s' = VS s -> find_ind i (inds s) = Some y ->
+    exists y', find_ind i (inds s') = Some y' /\ fiJ y' = fiJ y /\ fiS y' = fiS y.
+  Proof.
+    intros EJ ES Hf. pose proof (VJ_find s s' i EJ) as Hv. rewrite Hf in Hv. destruct (find_ind i (inds s')) as [y'|] eqn:E; [|discriminate Hv].
+    cbn [option_map] in Hv. exists y'. split; [reflexivity|]. split; [congruence|].
+    pose proof (VW_ind fnS fiS fgS s s' i ES) as Hw. rewrite Hf, E in Hw. cbn [option_map] in Hw. congruence.
+  Qed.
+  Lemma unblocked_NoEntry s i y : Lq s -> find_ind i (inds s) = Some y -> i_blocked y = false -> NoEntry s i.
+  Proof. intros HL Hf Hb d fr He. destruct (l_ent _ HL d fr i He) as (x & Hx & _ & Hbx). congruence. Qed.
+
+  (* ---------- finish_service ---------- *)
+  Lemma finish_service_St j s s' : St [] s ->
+    (forall nd i x, nodeZ s j = Some nd -> In i (n_next_inds nd) -> find_ind i (inds s) = Some x -> i_blocked x = false /\ i_node x = Some j) ->
+    finish_service cf j s = Ok (tt, s') -> St [] s'.
+  Proof.
+    intros [HJ HS] Hpick H. unfold finish_service in H. mstep H as nd.
+    pose proof (Jst_Ctx an h _ _ HJ) as HC. rename HS into HS0.
+    mstep H as i. pose proof (decide_between_spec _ _ _ _ E) as Hi.
+    destruct (carryB cf [] _ s _ s0 (kb_decide_between _) HC HS0 E) as (HC1 & HS1 & ES1 & EJ1). clear E.
+    bstep H HC1 HS1 as ES2 EJ2. bstep H HC1 HS1 as ES3 EJ3. rename a into d.
+    assert (EJ03 : VJ s2 = VJ s) by congruence. assert (ES03 : VS s2 = VS s) by congruence.
+    assert (J3 : Jst an h [] s2) by (eapply Jst_VJ; eauto).
+    (* the destination is stamped on the customer *)
+    mstep H as u0. destruct (upd_ind_full _ _ _ _ _ E) as (y & Hy & Ei4 & En4 & Ea4 & El4 & Et4 & Ee4 & Een4). clear E.
+    set (y4 := y <| i_dest := Some d |>) in *. pose proof (find_ind_id _ _ _ Hy) as Hidy.
+    assert (Hy0 : exists y0, find_ind i (inds s) = Some y0 /\ fiJ y = fiJ y0 /\ fiS y = fiS y0).
+    { destruct (find_ind i (inds s)) as [y0|] eqn:E0.
+      - destruct (rec_VJS s s2 i y0 EJ03 ES03 E0) as (y' & Hy' & P1 & P2). assert (y' = y) by congruence. subst y'. eauto.
+      - exfalso. pose proof (VJ_find s s2 i EJ03) as Hv. rewrite E0, Hy in Hv. discriminate Hv. }
+    destruct Hy0 as (y0 & Hy0 & PJ & PS). destruct (Hpick nd i y0 Hn Hi Hy0) as [Hb0 Hnode0].
+    assert (Hb : i_blocked y = false) by (unfold fiS in PS; injection PS as _ _ PS; congruence).
+    assert (Hnode : i_node y = Some j) by (unfold fiS in PS; injection PS as _ PS _; congruence).
+    assert (N3 : NoEntry s2 i) by (eapply unblocked_NoEntry; [exact (proj1 (proj2 (proj2 J3)))|exact Hy|exact Hb]).
+    assert (J4 : Jst an h [] s3) by (apply (Jst_put_same [] s2 s3 i y y4 J3 N3 Hy Hidy eq_refl Ei4 En4 Ee4 Een4 Ea4 El4)).
+    assert (S4 : SrvInv cf [] s3) by (apply (SrvInv_VS cf [] s2 s3); [apply (VS_put_ind s2 s3 y y4); [rewrite Hidy; exact Hy|reflexivity|exact Ei4|exact En4]|exact HS1]).
+    assert (Hy4 : find_ind i (inds s3) = Some y4) by (rewrite Ei4; rewrite <- Hidy at 1; change (i_id y) with (i_id y4); apply find_put_same).
+    assert (N4 : NoEntry s3 i) by (intros d0 fr He; apply (entry_nodes s2 s3) in He; [exact (N3 d0 fr He)|exact En4]).
+    clear HC1 HS1 J3 N3.
+    (* the server has no end-of-service date any more *)
+    mstep H as nc. mstep H as u1.
+    assert (F5 : Jst an h [] s4 /\ SrvInv cf [] s4 /\ VJ s4 = VJ s3 /\ find_ind i (inds s4) = Some y4 /\
+                 (forall j0 n0 sv, nodeZ s4 j0 = Some n0 -> slot_of cf j0 = false -> In sv (n_servers n0) -> sv_cust sv = Some i -> sv_next_end sv = None) /\
+                 (i_server y4 = None -> exists n0, nodeZ s4 j = Some n0 /\ (nd_inf n0 = true \/ slot_of cf j = true))).
+    { destruct (negb (nd_inf nd) && negb (nc_slotted nc)) eqn:Ec.
+      - mstep E as xr. assert (xr = y4) by congruence. subst xr. mstep E as sid.
+        destruct (srv_set_next_end cf [] j sid None s3 s4 (WFx2_Idx _ _ (proj1 J4)) S4 ltac:(intros Hx; exfalso; apply Hx; reflexivity) E) as (A1 & _).
+        destruct (carryJ [] _ s3 _ s4 (kv_T _ _ _ _ _ (kj_set_next_end j sid None)) (Jst_Ctx an h _ _ J4) E) as (_ & EJ).
+        assert (Ei5 : inds s4 = inds s3) by (unfold set_next_end in E; destruct (upd_server_spec _ _ _ _ _ _ E) as (? & _ & A & _); exact A).
+        split; [eapply Jst_VJ; eauto|]. split; [exact A1|]. split; [exact EJ|]. split; [rewrite Ei5; exact Hy4|]. split.
+        + intros j0 n0 sv B1 B2 B3 B4. destruct (si_own _ _ _ A1 j0 n0 sv i B1 B2 B3 B4) as (z & Hz & P1 & P2 & _).
+          rewrite Ei5, Hy4 in Hz. injection Hz as <-. assert (j0 = j) by (change (i_node y4) with (i_node y) in P2; congruence). subst j0.
+          apply (set_next_end_post j sid None s3 s4 (WFx2_Idx _ _ (proj1 J4)) S4 E n0 sv B1 B3). change (i_server y4) with (i_server y) in P1. congruence.
+        + intros Hx. change (i_server y4) with (i_server y) in Hx. congruence.
+      - apply ret_spec in E as [_ ->]. split; [exact J4|]. split; [exact S4|]. split; [reflexivity|]. split; [exact Hy4|].
+        assert (Hnd3 : exists n3, nodeZ s3 j = Some n3 /\ nd_inf n3 = nd_inf nd).
+        { assert (ES : VS s3 = VS s) by (rewrite <- ES03; apply (VS_put_ind s2 s3 y y4); [rewrite Hidy; exact Hy|reflexivity|exact Ei4|exact En4]).
+          pose proof (VW_node fnS fiS fgS s s3 j ES) as Hv. rewrite Hn in Hv. destruct (nodeZ s3 j) as [n3|]; [|discriminate Hv].
+          cbn in Hv. unfold nv, fnS in Hv. injection Hv as _ _ _ Hv. eauto. }
+        destruct Hnd3 as (n3 & Hn3 & Hinf3).
+        assert (Hor : nd_inf n3 = true \/ slot_of cf j = true).
+        { apply andb_false_iff in Ec as [Ec|Ec]; apply negb_false_iff in Ec; [left; congruence|right; unfold slot_of; rewrite Hc; exact Ec]. }
+        split.
+        + intros j0 n0 sv B1 B2 B3 B4. exfalso. destruct (si_own _ _ _ S4 j0 n0 sv i B1 B2 B3 B4) as (z & Hz & _ & P2 & _).
+          rewrite Hy4 in Hz. injection Hz as <-. assert (j0 = j) by (change (i_node y4) with (i_node y) in P2; congruence). subst j0.
+          assert (n0 = n3) by congruence. subst n0. destruct Hor as [Hor|Hor]; [|congruence].
+          rewrite (sn_inf _ _ _ (si_n _ _ _ S4 j n3 Hn3) Hor) in B3. destruct B3.
+        + intros _. exists n3. auto. }
+    destruct F5 as (J5 & S5 & EJ5 & Hy5 & Hown5 & Hblk5). clear E J4 S4.
+    assert (N5 : NoEntry s4 i) by (eapply NoEntry_VJ; eauto).
+    (* is there room at the destination? *)
+    pose proof (Jst_Ctx an h _ _ J5) as HC5. bstep H HC5 S5 as ES6 EJ6. rename a into space.
+    assert (J6 : Jst an h [] s5) by (eapply Jst_VJ; eauto).
+    destruct (rec_VJS s4 s5 i y4 EJ6 ES6 Hy5) as (y6 & Hy6 & PJ6 & PS6).
+    assert (N6 : NoEntry s5 i) by (eapply NoEntry_VJ; eauto).
+    assert (Hd6 : i_dest y6 = Some d) by (unfold fiJ in PJ6; injection PJ6 as _ _ _ PJ6 _; exact PJ6).
+    destruct space.
+    - mstep H as fl0. apply (release_St fl0 j i d s5 s' (conj J6 S5) N6); [eauto|exact H].
+    - (* blocked *)
+      unfold block_individual in H. mstep H as u2.
+      destruct (upd_ind_full _ _ _ _ _ E) as (z & Hz & Ei7 & En7 & Ea7 & El7 & Et7 & Ee7 & Een7). clear E.
+      assert (z = y6) by congruence. subst z. set (y7 := y6 <| i_blocked := true |>) in *. pose proof (find_ind_id _ _ _ Hy6) as Hid6.
+      assert (J7 : Jst an h [] s6) by (apply (Jst_put_same [] s5 s6 i y6 y7 J6 N6 Hy6 Hid6 eq_refl Ei7 En7 Ee7 Een7 Ea7 El7)).
+      assert (S7 : SrvInv cf [] s6).
+      { apply (SrvInv_put_ind cf [] [] s5 s6 i y6 y7 S5 Hy6 Hid6 En7 Ei7); [auto| |].
+        - intros j0 n0 sv B1 B2 B3 B4. destruct (si_own _ _ _ S5 j0 n0 sv i B1 B2 B3 B4) as (z & Hz' & P1 & P2 & _).
+          assert (z = y6) by congruence. subst z. split; [exact P1|]. split; [exact P2|]. intros Hne. exfalso. apply Hne.
+          (* the server is seen from s4 *)
+          destruct (VS_node s4 s5 j0 n0 ES6 B1) as (n4 & Hn4 & _ & E1 & _ & _). destruct (srv3_in _ _ _ E1 B3) as (sv4 & Hsv4 & E4).
+          unfold srv3 in E4. injection E4 as E41 E42 E43. rewrite <- E43. apply (Hown5 j0 n4 sv4 Hn4 B2 Hsv4). congruence.
+        - intros _ _ Hsv. change (i_server y7) with (i_server y6) in Hsv.
+          assert (Hsv4 : i_server y4 = None) by (unfold fiS in PS6; injection PS6 as PS6 _ _; congruence).
+          destruct (Hblk5 Hsv4) as (n4 & Hn4 & Hor). pose proof (VW_node fnS fiS fgS s4 s5 j ES6) as Hv. rewrite Hn4 in Hv.
+          destruct (nodeZ s5 j) as [n5|] eqn:En5; [|discriminate Hv]. cbn in Hv. unfold nv, fnS in Hv. injection Hv as _ _ _ Hv.
+          exists j, n5. split; [|split; [reflexivity|rewrite Hv; exact Hor]].
+          change (i_node y7) with (i_node y6). unfold fiS in PS6. injection PS6 as _ PS6 _. rewrite PS6. exact Hnode. }
+      assert (Hy7 : find_ind i (inds s6) = Some y7) by (rewrite Ei7; rewrite <- Hid6 at 1; change (i_id y6) with (i_id y7); apply find_put_same).
+      assert (N7 : NoEntry s6 i) by (intros d0 fr He; apply (entry_nodes s5 s6) in He; [exact (N6 d0 fr He)|exact En7]).
+      (* the entry in the blocked queue of the destination *)
+      unfold upd_node in H. mstep H as dn. match type of H with put_node ?n _ = _ => set (dn1 := n) in * end.
+      destruct (put_node_facts _ _ _ _ H) as (Es8 & Ei8 & Ea8 & El8 & Et8 & Ee8 & Een8).
+      assert (En8 : nodes s' = updZ (nodes s6) (n_id dn1 - 1) dn1) by (rewrite Es8; reflexivity).
+      pose proof (WFx2_Idx _ _ (proj1 J7) _ _ Hn0) as Hidd.
+      assert (Hnd : nodeZ s6 (n_id dn1) = Some dn) by (change (n_id dn1) with (n_id dn); rewrite Hidd; exact Hn0).
+      assert (HZ8 : forall k, nodeZ s' k = if k =? d then Some dn1 else nodeZ s6 k).
+      { intros k. rewrite (nodeZ_upd s6 s' dn1 dn k En8 Hnd). change (n_id dn1) with (n_id dn). rewrite Hidd. reflexivity. }
+      assert (Hatn : forall k z, at_node s' k z <-> at_node s6 k z).
+      { intros k z. unfold at_node. rewrite HZ8. destruct (Z.eqb_spec k d) as [->|Hne]; [|reflexivity]. split.
+        - intros (n & Hnn & Hin). injection Hnn as <-. exists dn. auto.
+        - intros (n & Hnn & Hin). assert (n = dn) by congruence. subst n. exists dn1. auto. }
+      destruct J7 as (A7 & B7 & C7 & D7). split.
+      + split; [|split; [|split]].
+        * eapply Conserve2.WFx2_shape; [|exact A7]. unfold Conserve2.shp. rewrite Ee8, Een8, Ea8, Ei8. f_equal.
+          rewrite En8. unfold nodeZ in Hnd. destruct (Conserve2.nthZ_nat _ _ _ Hnd) as (kk & Hkk & Hnk). rewrite Hkk, Conserve2.updZ_nat, Conserve2.upd_map.
+          apply Conserve2.upd_same. rewrite nth_error_map, Hnk. reflexivity.
+        * unfold JI in *. rewrite El8. apply (JH_mono an _ s6 s' B7); [intros k z; apply Hatn|intros k z _; rewrite Ei8; reflexivity|exact Ee8|rewrite Ea8; lia].
+        * constructor.
+          -- intros d0 fr z (n & Hnn & Hin). rewrite HZ8 in Hnn. rewrite Ei8. destruct (Z.eqb_spec d0 d) as [->|Hne].
+             ++ injection Hnn as <-. cbn in Hin. apply in_app_or in Hin as [Hin|[Hin|[]]].
+                ** apply (l_ent _ C7 d fr z). exists dn. auto.
+                ** injection Hin as <- <-. exists y7. split; [exact Hy7|]. split; [exact Hd6|reflexivity].
+             ++ apply (l_ent _ C7 d0 fr z). exists n. auto.
+          -- intros d0 n Hnn. rewrite HZ8 in Hnn. destruct (Z.eqb_spec d0 d) as [->|Hne]; [|exact (l_nd _ C7 d0 n Hnn)].
+             injection Hnn as <-. cbn. rewrite map_app. cbn. apply NoDup_snoc; [exact (l_nd _ C7 d dn Hn0)|].
+             intros Hin. apply in_map_iff in Hin as ([fr z] & Ez & Hin). cbn in Ez. subst z. exact (N7 d fr (ex_intro _ dn (conj Hn0 Hin))).
+        * intros k n Hnn. rewrite HZ8 in Hnn. destruct (Z.eqb_spec k d) as [->|Hne]; [injection Hnn as <-; exact (D7 d dn Hn0)|exact (D7 k n Hnn)].
+      + apply (SrvInv_VS cf [] s6 s' (VS_put_node s6 s' dn dn1 Hnd eq_refl eq_refl En8 Ei8)). exact S7.
+  Qed.
 End Walk.
